@@ -31,6 +31,15 @@ def sh(cmd, timeout=None, env=None, cwd=None):
 
 # ----------------------------------------------------------------------------------------------- deductive units
 def run_unit(unit, tier, known):
+    if unit.get("script"):          # script-type unit (e.g. the static frame analysis): prints a report in the worker format
+        rc, out, err = sh([VT, os.path.join(ROOT, unit["script"])] + unit.get("args", []), timeout=300, env={"MDPAX_SRC": SRC, "PYTHONPATH": ROOT})
+        rep = json.loads(out.split("@@REPORT@@", 1)[1].strip().splitlines()[0]) if "@@REPORT@@" in out else {"target": unit["script"], "results": [], "error": f"script rc={rc}: {err[-1500:]}"}
+        rep["unit"] = unit.get("id", unit["script"])
+        for r in rep["results"]:
+            if r["status"] != "proved":
+                for k in known:
+                    if k.get("obligation") and fnmatch.fnmatch(r["name"], k["obligation"]) and ("lost_fields" not in k or r.get("meta", {}).get("lost") == k["lost_fields"]): r["known_finding"] = k["id"]
+        return _ignore(unit, rep)
     spec = {"modules": unit["modules"], "target": unit["target"], "pop": unit.get("pop", []), "prepare": unit.get("prepare"),
             "only": unit.get("only"), "known": known,
             "timeout_ms": unit.get("timeout_ms", 10000) * (3 if tier == "thorough" else 1)}
@@ -45,6 +54,10 @@ def run_unit(unit, tier, known):
     else:
         rep = {"target": unit["target"], "results": [], "error": f"worker rc={rc}: {err[-1500:]}"}
     rep["unit"] = unit.get("id", unit["target"])
+    return _ignore(unit, rep)
+
+
+def _ignore(unit, rep):
     if unit.get("ignore"):          # clauses of a shared contract that belong to another property (listed in props.py, reported in the evidence)
         rep["ignored"] = [r["name"] for r in rep["results"] if any(fnmatch.fnmatch(r["name"], pat) for pat in unit["ignore"])]
         rep["results"] = [r for r in rep["results"] if r["name"] not in rep["ignored"]]
